@@ -298,7 +298,7 @@ func (c *cenv) evalQuant(src string) Val {
 			cc := c.clone()
 			cc.st = c.st.clone()
 			cc.pol = -1
-			lq := &lazyQuant{env: cc, name: name, proto: bv, sort: srt, mkGuard: mkGuard, body: body, guard: and(append([]string{c.guard}, c.ante...)...), done: map[string]bool{}}
+			lq := &lazyQuant{tag: fv.curTag, env: cc, name: name, proto: bv, sort: srt, mkGuard: mkGuard, body: body, guard: and(append([]string{c.guard}, c.ante...)...), done: map[string]bool{}}
 			fv.lazies = append(fv.lazies, lq)
 			for _, h := range hints {
 				hv := c.eval(h)
@@ -309,7 +309,7 @@ func (c *cenv) evalQuant(src string) Val {
 				}
 			}
 			for _, sk := range fv.skolems {
-				if sk.sort == srt {
+				if sk.sort == srt && fv.visible(sk.tag) {
 					fv.instantiate(lq, sk.term)
 				}
 			}
@@ -344,27 +344,41 @@ type lazyQuant struct {
 	body    string
 	guard   string
 	done    map[string]bool
+	inst    map[string][]int
+	tag     int
 }
 
 type skolem struct {
 	term string
 	sort string
+	tag  int
+}
+
+// visible: lines emitted at tag t are part of the slice of the current tag.
+func (fv *FnVC) visible(t int) bool {
+	if t == -1 || t == fv.curTag {
+		return true
+	}
+	a := fv.anc[fv.curTag]
+	return a != nil && a[t]
 }
 
 func (fv *FnVC) instantiateLazies(sk, srt string) {
-	fv.skolems = append(fv.skolems, skolem{sk, srt})
+	fv.skolems = append(fv.skolems, skolem{sk, srt, fv.curTag})
 	for _, lq := range fv.lazies {
-		if lq.sort == srt {
+		if lq.sort == srt && fv.visible(lq.tag) {
 			fv.instantiate(lq, sk)
 		}
 	}
 }
 
 func (fv *FnVC) instantiate(lq *lazyQuant, idx string) {
-	if lq.done[idx] {
+	if lq.inst == nil {
+		lq.inst = map[string][]int{}
+	}
+	if fv.emittedHere(lq.inst, idx) {
 		return
 	}
-	lq.done[idx] = true
 	c2 := lq.env.clone()
 	v := lq.proto
 	v.T = idx
@@ -518,6 +532,13 @@ func (c *cenv) expr(e ast.Expr) Val {
 		}
 		return fv.load(c.st, x.T, pt.Elem())
 	case *ast.UnaryExpr:
+		if e.Op == token.AND {
+			loc, t, ok := c.lvalue(e.X)
+			if !ok {
+				return c.fail("address-of: operand is not a location")
+			}
+			return Val{K: KLoc, T: loc, Typ: types.NewPointer(t)}
+		}
 		sp := c.pol
 		if e.Op == token.NOT {
 			c.pol = -sp
@@ -535,7 +556,7 @@ func (c *cenv) expr(e ast.Expr) Val {
 		case token.XOR:
 			return Val{K: KBV, W: x.W, T: "(bvnot " + x.T + ")", Typ: x.Typ}
 		case token.AND:
-			return c.fail("address-of is not supported in contracts")
+			return c.fail("address-of of a computed value")
 		}
 	case *ast.BinaryExpr:
 		if e.Op == token.LAND || e.Op == token.LOR {
@@ -579,6 +600,9 @@ func (c *cenv) expr(e ast.Expr) Val {
 		fv.boundDepth = save
 		return r
 	case *ast.IndexExpr:
+		if loc, t, ok := c.lvalue(e); ok {
+			return fv.load(c.st, loc, t)
+		}
 		x := c.expr(e.X)
 		i := c.expr(e.Index)
 		return c.index(x, i)
@@ -761,7 +785,7 @@ func (c *cenv) field(x Val, name string) Val {
 		}
 		lv := fv.load(c.st, loc, ft)
 		if len(path) == 1 && fv.boundDepth == 0 {
-			if fi := fv.eng.fieldInvs[fmt.Sprintf("%s#%d", canonType(t), path[0])]; fi != nil {
+			if fi := fv.eng.fieldInvs[fmt.Sprintf("%s#%d", canonType(t), path[0])]; fi != nil && !strings.HasPrefix(fi.Clause.Name, "nowrite") {
 				ce := &cenv{fv: fv, vars: map[string]Val{"v": lv}, st: c.st, pkg: fv.eng.tpkgs[fi.PkgPath], allocOld: c.allocOld, where: "fieldinv"}
 				fv.assume(c.st.reach, ce.evalAssume(c.st.reach, fi.Clause.Expr))
 			}
@@ -871,14 +895,17 @@ func (c *cenv) lvalue(e ast.Expr) (loc string, t types.Type, ok bool) {
 		}
 		return base, ft, true
 	case *ast.IndexExpr:
-		idx := c.as64(c.expr(e.Index))
 		if l, t, ok := c.lvalue(e.X); ok {
 			if a, isA := types.Unalias(t).Underlying().(*types.Array); isA {
-				return lelem(l, idx), a.Elem(), true
+				return lelem(l, c.as64(c.expr(e.Index))), a.Elem(), true
 			}
 		}
 		x := c.expr(e.X)
+		if x.Typ == nil {
+			return "", nil, false
+		}
 		if s, isS := types.Unalias(x.Typ).Underlying().(*types.Slice); isS {
+			idx := c.as64(c.expr(e.Index))
 			return lelem("(sarr "+x.T+")", "(bvadd (soff "+x.T+") "+idx+")"), s.Elem(), true
 		}
 	case *ast.Ident:
@@ -958,6 +985,40 @@ func (c *cenv) call(e *ast.CallExpr) Val {
 				return bval("(>= (root (idat " + x.T + ")) " + c.allocOld + ")")
 			}
 			return c.fail("fresh() of non-reference value")
+		case "freshit":
+			// allocated since the loop header snapshot
+			if c.it0 == nil {
+				return c.fail("freshit() only inside loop step clauses")
+			}
+			x := c.expr(e.Args[0])
+			switch x.K {
+			case KLoc:
+				return bval("(>= (root " + x.T + ") " + c.it0.alloc + ")")
+			case KSlice:
+				return bval("(>= (root (sarr " + x.T + ")) " + c.it0.alloc + ")")
+			case KIface:
+				return bval("(>= (root (idat " + x.T + ")) " + c.it0.alloc + ")")
+			}
+			return c.fail("freshit() of non-reference value")
+		case "callresult":
+			// callresult(Method, i): i-th result of the latest call of interface method Method on this path
+			mid, ok1 := e.Args[0].(*ast.Ident)
+			il, ok2 := e.Args[1].(*ast.BasicLit)
+			if !ok1 || !ok2 {
+				return c.fail("callresult(Method, index)")
+			}
+			v, ok := c.st.ghost[mid.Name+"."+il.Value]
+			if !ok {
+				return Val{K: KIface, T: "niliface", Typ: types.Universe.Lookup("error").Type(), Sort: "nocall"}
+			}
+			return v
+		case "called":
+			mid, ok1 := e.Args[0].(*ast.Ident)
+			if !ok1 {
+				return c.fail("called(Method)")
+			}
+			_, ok := c.st.ghost[mid.Name+".0"]
+			return bval(fmt.Sprint(ok))
 		case "allocated":
 			// allocated(x): x existed before the call
 			x := c.expr(e.Args[0])
